@@ -24,54 +24,93 @@ def run_session(cfg):
         return {"id": cfg["id"], "machinery": traceback.format_exc()}
 
 
-def _run(cfg):
-    warnings.simplefilter("ignore")
-    np.seterr(all="ignore")
-    np.random.seed(cfg["seed"] % (2 ** 32))
-    random.seed(cfg["seed"])
-    D = cfg["D"]
-    box = [list(map(float, b)) for b in cfg["box"]]
-    dom = [list(b) for b in box]
-    before = copy.deepcopy(dom)
-    part = A.partition_class(cfg["kind"], cfg["K"])
-    P = {"kind": cfg["kind"], "K": cfg["K"], "D": D, "metric": "rank", "arity": A.arity(cfg["kind"], cfg["K"], D), "algo": cfg["algo"]}
-    n = cfg["n"]
-    T = cfg.get("T", n)
-    t0 = cfg.get("t0", 1)
-    queries = set(cfg.get("queries", ()))
-    RU = cfg.get("RU", 64)
-    src = A.reward_source(cfg["pattern"], cfg["seed"] + 7, RU)
-    prnd = random.Random(cfg["seed"] + 11)
-    events0 = []
-    try:
-        algo = A.build(cfg["algo"], part, dom, n, cfg.get("prm", {}))
-    except Exception as e:
-        tr = {"id": cfg["id"], "P": P, "ev": [{"k": "ctor", "exc": type(e).__name__}], "xbox": [[[1, 2]] * D]}
-        tr["cfg"] = _cfg_summary(cfg)
-        return tr
-    rec = R.SessionRec(algo, P, tid=cfg["id"], call_timeout=cfg.get("timeout", 30))
-    for i in range(T):
-        pt = rec.pull(t0 + i)
-        if rec.failed:
-            break
-        if cfg["pattern"] == "peak" and R.is_point(pt, D):
-            rel = [int((pt[x] - box[x][0]) / (box[x][1] - box[x][0]) * (1 << 30)) for x in range(D)]
-            r = A.peak_reward(rel, prnd, RU)
+class Stepper:
+    """one session that can be advanced operation by operation (pull / receive_reward[, query])"""
+
+    def __init__(self, cfg, seed_rng=True):
+        warnings.simplefilter("ignore")
+        np.seterr(all="ignore")
+        if seed_rng:
+            np.random.seed(cfg["seed"] % (2 ** 32))
+            random.seed(cfg["seed"])
+        self.cfg = cfg
+        D = self.D = cfg["D"]
+        self.box = [list(map(float, b)) for b in cfg["box"]]
+        self.dom = [list(b) for b in self.box]
+        self.before = copy.deepcopy(self.dom)
+        part = A.partition_class(cfg["kind"], cfg["K"])
+        self.P = {"kind": cfg["kind"], "K": cfg["K"], "D": D, "metric": "rank", "arity": A.arity(cfg["kind"], cfg["K"], D), "algo": cfg["algo"]}
+        self.n = cfg["n"]
+        self.T = cfg.get("T", self.n)
+        self.t0 = cfg.get("t0", 1)
+        self.queries = cfg.get("queries", {})
+        if not isinstance(self.queries, dict):
+            self.queries = {int(q): 1 for q in self.queries}
+        self.queries = {int(k): v for k, v in self.queries.items()}
+        self.RU = cfg.get("RU", 64)
+        self.src = A.reward_source(cfg["pattern"], cfg["seed"] + 7, self.RU)
+        self.prnd = random.Random(cfg["seed"] + 11)
+        self.i = 0
+        self.asked = None
+        self.rec = None
+        self.ctor_exc = None
+        prm = dict(cfg.get("prm", {}))
+        dk = prm.pop("delta_kind", None)
+        if dk == "pow2":
+            prm["delta_fn"] = lambda h: 2.0 ** (-h)
+        elif dk == "const":
+            prm["delta_fn"] = lambda h: 0.5
+        try:
+            algo = A.build(cfg["algo"], part, self.dom, self.n, prm)
+        except Exception as e:
+            self.ctor_exc = type(e).__name__
+            return
+        self.rec = R.SessionRec(algo, self.P, tid=cfg["id"], call_timeout=cfg.get("timeout", 30))
+
+    def done(self):
+        return self.rec is None or self.rec.failed or (self.i >= self.T and self.asked is None)
+
+    def step(self):
+        """next operation of the documented loop"""
+        rec = self.rec
+        if self.asked is None:
+            self.asked = (rec.pull(self.t0 + self.i),)
+            return
+        pt = self.asked[0]
+        self.asked = None
+        if self.cfg["pattern"] == "peak" and R.is_point(pt, self.D):
+            rel = [int((pt[x] - self.box[x][0]) / (self.box[x][1] - self.box[x][0]) * (1 << 30)) for x in range(self.D)]
+            r = A.peak_reward(rel, self.prnd, self.RU)
         else:
-            r = src(i, pt)
-        rec.recv(t0 + i, r)
-        if rec.failed:
-            break
-        if i in queries:
+            r = self.src(self.i, pt)
+        rec.recv(self.t0 + self.i, r)
+        if not rec.failed:
+            for _ in range(self.queries.get(self.i, 0)):
+                rec.glp()
+                if rec.failed:
+                    break
+        self.i += 1
+
+    def finish(self):
+        if self.rec is None:
+            tr = {"id": self.cfg["id"], "P": self.P, "ev": [{"k": "ctor", "exc": self.ctor_exc}], "xbox": [[[1, 2]] * self.D]}
+            tr["cfg"] = _cfg_summary(self.cfg)
+            return tr
+        rec = self.rec
+        if not rec.failed:
             rec.glp()
-            if rec.failed:
-                break
-    if not rec.failed:
-        rec.glp()
-    rec.end(before, dom)
-    tr = rec.finalize(extra_boxes=[tuple((b[0], b[1]) for b in box)])
-    tr["cfg"] = _cfg_summary(cfg)
-    return tr
+            rec.events[-1]["final"] = 1
+        rec.end(self.before, self.dom)
+        tr = rec.finalize(extra_boxes=[tuple((b[0], b[1]) for b in self.box)])
+        tr["cfg"] = _cfg_summary(self.cfg)
+        return tr
+
+
+def _run(cfg):
+    st = Stepper(cfg)
+    while not st.done():
+        st.step()
+    return st.finish()
 
 
 def _cfg_summary(cfg):
